@@ -67,7 +67,7 @@ TRUSTED = [
     'through drv pipeline on every run; the named function library is written twice (Lean Fn.eval, Python make_fn) and '
     'exercised on both sides by the same runs',
     'imported, not proved here: the look-ahead constants of the eager stages (buffer n: n+2 = worker-in-hand + queue + '
-    'consumer-in-hand; parmap: 2*concurrency+3 = Fifo.C08_parmap_lookahead); their thread-level behaviour is C01/C05/C08',
+    'consumer-in-hand = Buffer.C08_buffer_lookahead; parmap: 2*concurrency+3 = Fifo.C08_parmap_lookahead); their thread-level behaviour is C01/C05/C08',
     'modelled not verified: CPython generator protocol (a finished generator is not resumed; `yield from list` yields '
     'the items in order), itertools.groupby, collections.deque(maxlen), list.append/len; random.randrange / '
     'random.shuffle are replaced by scripted functions (shuffle: only "the result is a permutation" is assumed of the real one)',
